@@ -64,6 +64,16 @@ public:
     std::string namespaceUri() const;
 
     /**
+     * @brief Get the namespace prefix of the XML element.
+     *
+     * Get the namespace prefix of the XML element.  The prefix is empty
+     * if the element has no namespace or is in a default namespace.
+     *
+     * @return A @c std::string representation of the XML namespace prefix.
+     */
+    std::string namespacePrefix() const;
+
+    /**
      * @brief Add a namespace definition to this XML element.
      *
      * Add a libXml2 namespace definition to this XML element using the given URI
